@@ -45,7 +45,7 @@ impl Switches {
     pub fn from_env() -> Switches {
         // default = the findings that are still open; the ADPCM+bzip2 and exotic-selector findings were
         // fixed in /repo, so those regions are explored at full depth again
-        let v = std::env::var("VERIF_C03_EXCLUDE").unwrap_or_else(|_| "bomb-ratio".into());
+        let v = std::env::var("VERIF_C03_EXCLUDE").unwrap_or_else(|_| "none".into());
         let has = |n: &str| v == "all" || v.split(',').any(|x| x.trim() == n);
         Switches {
             bomb_ratio: has("bomb-ratio"),
